@@ -5,6 +5,8 @@ from . import run as R
 def run(prop, tier, seed):
     if prop in ("C03", "C04", "C05", "C06", "C07", "C08", "C09"):
         return R.command_property(prop, tier, seed)
+    if prop in ("C01", "C14"):
+        return R.heap_property(prop, tier, seed)
     if prop == "C20":
         return R.param_property(prop, tier, seed)
     raise SystemExit("unknown property %s" % prop)
